@@ -7,6 +7,7 @@ from __future__ import annotations
 
 import itertools
 import random
+import time
 
 import common
 import export
@@ -207,7 +208,15 @@ class Runner:
     def __init__(self, rng: random.Random, cap: int):
         self.rng = rng
         self.cap = cap
-        self.interp = export.Interp()
+        self.interp = None
+        for attempt in range(6):  # another check may be re-linking coq/Core/_build/interp right now
+            try:
+                self.interp = export.Interp()
+                break
+            except OSError:
+                if attempt == 5:
+                    raise
+                time.sleep(4)
         self.uid = 0
         self.stats = {"programs": 0, "runs": 0, "done": 0, "invalid": 0, "fails": 0, "unbuildable_inputs": 0,
                       "unsupported": 0, "interp_errors": 0, "programs_with_valid_input": 0,
